@@ -210,19 +210,35 @@ def _pattern_task(task):
     pw = b"password"
     w = R.pw_scalar(pw)
     s1 = "A" if flavour == "AB" else "S"
-    pos = C.pattern_positions(R, level)
-    y0 = 0x1234567 % q
-    pairs = []
-    own = C.pattern_element_scalars(R, R.mul(rp.blind(s1), w), R.base(), pos)
-    pairs += [(k % q, y0) for k in sorted(set(own.values()))]
-    ks = C.pattern_element_scalars(R, R.identity, R.mul(R.base(), 0x7654321 % q), pos)
-    pairs += [(0x7654321 % q, k % q) for k in sorted(set(ks.values())) if k]
-    pairs += [(x, y0) for x in C.pattern_scalars(q, level)] + [(y0, x) for x in C.pattern_scalars(q, 0)]
+    sess = C.PATTERNS.get((name, s1, pw, level)) or C.pattern_sessions(inst, s1, pw, level)
+    pairs = [(x, y) for (x, y, inb, tag) in sess]
     mine = pairs[part::nparts]
     for j, (x, y) in enumerate(mine):
         judge(inst, flavour, pw, w, C.ids_for("S" if flavour == "SS" else "A", j), x, y, PATTERNS[j % 3 * 2 % 5], acc)
     acc.n(traces=len(mine), states=len(mine))
     acc.inst(name, pattern_exchanges=len(mine))
+    return acc
+
+
+def _rare_task(task):
+    """shipped groups with the password scalar forced to 0: messages are x*G, so the frozen rare multiples put structurally
+    rare encodings on the wire in both directions of an honest exchange"""
+    name, flavour = task
+    acc = Acc()
+    try:
+        base = T.get(name)
+        inst = T.wrapped(base, pw_map={b"\x00w0": 0}, name=name + "+w")
+    except Exception as e:
+        acc.degrade("%s wrapper unavailable: %s: %s" % (name, type(e).__name__, e))
+        return acc
+    ks = [k for _, k in sorted(C.rare_multiples(name).items())]
+    n = 0
+    for j, k in enumerate(ks):
+        for y in (ks[(j + 1) % len(ks)], 0x1234567):
+            judge(inst, flavour, b"\x00w0", 0, C.ids_for("S" if flavour == "SS" else "A", j), k % inst.q, y % inst.q, PATTERNS[j % 5], acc)
+            n += 1
+    acc.n(traces=n, states=n)
+    acc.inst(name, rare_exchanges=n)
     return acc
 
 
@@ -360,7 +376,9 @@ def run(tier, seed):
             for part in range(np_):
                 ptasks.append((name, flavour, 0 if quick else 1, part, np_))
     ptasks.sort(key=lambda t: -T.get(t[0]).ref.esize)
+    C.prepare_patterns(T.SHIPPED, "AS", b"password", 0 if quick else 1)
     core.pmerge(_pattern_task, ptasks, acc)
+    core.pmerge(_rare_task, [(n, f) for n in reversed(T.SHIPPED) for f in ("AB", "SS")], acc)
     core.pmerge(_sequence_task, [(["T23", "T23'", "T29", "T11"],), (["E37", "E37'", "E109"],), (["Params1024", "Params1024'"],),
                                  (["ParamsEd25519", "ParamsEd25519'"],)], acc)
     _default_path(acc)
